@@ -194,7 +194,8 @@ Proof.
   intros Hr Hs. unfold ix_chunks. rewrite (ix_sort_sorted_id ix2 Hs). rewrite Hr.
   assert (Hl : zlen (irefs (ix_sort ix)) = zlen (irefs ix)).
   { unfold ix_sort. destruct (isorted ix); [reflexivity|]. simpl. unfold zlen. rewrite map_length. reflexivity. }
-  rewrite Hl. destruct ((rid <? 0) || (rid >=? zlen (irefs ix))); [reflexivity|]. simpl.
+  rewrite Hl. destruct ((rid <? 0) || (rid >=? zlen (irefs ix))); [reflexivity|].
+  destruct ((beg <? 0) || (end_ <? beg)); [reflexivity|]. cbn [fst].
   unfold ix_chunks_of. rewrite Hr. reflexivity.
 Qed.
 
